@@ -69,7 +69,7 @@ func errorCodeOf(f *Func, e ast.Expr) string {
 		if id.Name == "nil" {
 			return "nil"
 		}
-		return "var:" + id.Name
+		return "var:" + types.TypeString(f.TypeOf(id), func(p *types.Package) string { return p.Name() })
 	}
 	if ce, ok := e.(*ast.CallExpr); ok {
 		if ws := f.ErrorfWraps(ce); ws != nil {
@@ -177,7 +177,7 @@ func rulesC06(c *Ctx) {
 					sort.Strings(cs)
 					// expected row
 					wantDispatch := true
-					allowed := map[string]bool{"var:perRequestErr": true}
+					allowed := map[string]bool{"var:error": true} // the error returned by validateRequestMeta
 					switch {
 					case newp:
 						allowed["-32022"] = true
@@ -203,7 +203,7 @@ func rulesC06(c *Ctx) {
 					mustReject := !wantDispatch
 					rejected := false
 					for _, k := range cs {
-						if k != "var:perRequestErr" && k != "-32022" {
+						if k != "var:error" && k != "-32022" {
 							rejected = true
 						}
 					}
@@ -350,13 +350,14 @@ func rulesC06(c *Ctx) {
 			guards := fg.GuardsAt(fg.VertexOf(w.n))
 			switch root.Name() {
 			case "(*ServerSession).initialize":
-				ok := inUpdateState(w.f) && hasAtom(guards, func(a Atom) bool { return !a.Val && strings.HasPrefix(exprStr(a.E), "wasInit") })
+				wi, _ := phaseFlags(root, initParamsF, initdParamsF)
+				ok := inUpdateState(w.f) && wi != nil && hasAtom(guards, func(a Atom) bool { return !a.Val && w.f.ObjOf(a.E) == wi })
 				// wasInit is computed from the same state in the same closure
 				c.Check(ok, key, w.f, w.n, "initialize stores its params only under !wasInit inside updateState (guards: %s): a second initialize cannot overwrite the session", atomsString(guards))
 			case "(*ServerSession).handle":
 				og := root.Graph()
 				ogd := og.GuardsAt(og.VertexOf(litParentCall(w.f)))
-				ok := inUpdateState(w.f) && hasAtom(ogd, func(a Atom) bool { return !a.Val && exprStr(a.E) == "initialized" }) && hasAtom(ogd, func(a Atom) bool { return a.Val && root.IsField(a.E, unp) })
+				ok := inUpdateState(w.f) && hasAtom(ogd, func(a Atom) bool { return !a.Val && phaseVar(root, initParamsF) != nil && root.ObjOf(a.E) == phaseVar(root, initParamsF) }) && hasAtom(ogd, func(a Atom) bool { return a.Val && root.IsField(a.E, unp) })
 				c.Check(ok, key, w.f, w.n, "handle adopts per-request metadata as session parameters only when not yet initialized and the request uses the new protocol (guards: %s)", atomsString(ogd))
 				// ... and only after the request passed the version gate: a rejected request must not change the phase
 				supp := c.Obj(pM, "supportedProtocolVersions")
@@ -401,7 +402,8 @@ func rulesC06(c *Ctx) {
 			guards := fg.GuardsAt(fg.VertexOf(w.n))
 			switch root.Name() {
 			case "(*ServerSession).initialized":
-				ok := inUpdateState(w.f) && hasAtom(guards, func(a Atom) bool { return a.Val && exprStr(a.E) == "wasInit" }) && hasAtom(guards, func(a Atom) bool { return !a.Val && exprStr(a.E) == "wasInitd" })
+				wi, wd := phaseFlags(root, initParamsF, initdParamsF)
+				ok := inUpdateState(w.f) && wi != nil && wd != nil && hasAtom(guards, func(a Atom) bool { return a.Val && w.f.ObjOf(a.E) == wi }) && hasAtom(guards, func(a Atom) bool { return !a.Val && w.f.ObjOf(a.E) == wd })
 				c.Check(ok, key, w.f, w.n, "initialized stores only under wasInit && !wasInitd (guards: %s)", atomsString(guards))
 			case "(*StreamableHTTPHandler).ephemeralConnectOpts":
 				c.Ok(key, w.f, w.n, "constructor of a fresh stateless session")
@@ -419,12 +421,13 @@ func rulesC06(c *Ctx) {
 				}
 				lg := l.Graph()
 				for _, w := range Writes(l.Body, false) {
-					if w.RHS == nil || !strings.HasPrefix(exprStr(w.LHS), "wasInit") {
+					wi, wd := phaseFlags(f, initParamsF, initdParamsF)
+					if w.RHS == nil || (l.ObjOf(w.LHS) != wi && l.ObjOf(w.LHS) != wd) || l.ObjOf(w.LHS) == nil {
 						continue
 					}
 					x, twn, ok := NilTest(w.RHS)
 					want := initParamsF
-					if exprStr(w.LHS) == "wasInitd" {
+					if l.ObjOf(w.LHS) == wd {
 						want = initdParamsF
 					}
 					okSrc := ok && !twn && l.IsField(x, want)
@@ -435,7 +438,7 @@ func rulesC06(c *Ctx) {
 							okOrder = false
 						}
 					}
-					c.Check(okSrc && okOrder, name+":"+exprStr(w.LHS)+"-from-state", l, w.Stmt, "%s is computed from the session state in the same locked closure, before the store", exprStr(w.LHS))
+					c.Check(okSrc && okOrder, name+":phase-flag("+want.Name()+")-from-state", l, w.Stmt, "the flag recording whether %s was already set is computed from the session state in the same locked closure, before the store", want.Name())
 				}
 			}
 			// error returns are on the non-writing branches
@@ -446,9 +449,11 @@ func rulesC06(c *Ctx) {
 					continue
 				}
 				guards := fg.GuardsAt(fg.VertexOf(r))
+				wi, wd := phaseFlags(f, initParamsF, initdParamsF)
+				paramsP := f.NonRecvParams()[len(f.NonRecvParams())-1]
 				ok := hasAtom(guards, func(a Atom) bool {
-					s := exprStr(a.E)
-					return (s == "wasInit" && ((name == "initialize" && a.Val) || (name == "initialized" && !a.Val))) || (s == "wasInitd" && a.Val) || AtomSaysNil(a, true, func(e ast.Expr) bool { return exprStr(e) == "params" })
+					o := f.ObjOf(a.E)
+					return (o != nil && o == wi && ((name == "initialize" && a.Val) || (name == "initialized" && !a.Val))) || (o != nil && o == wd && a.Val) || AtomSaysNil(a, true, func(e ast.Expr) bool { return f.ObjOf(e) == types.Object(paramsP) })
 				})
 				nErr++
 				c.Check(ok, name+":reject-on-non-writing-branch", f, r, "the rejection is returned exactly on a branch where the closure did not store (guards: %s)", atomsString(guards))
@@ -471,4 +476,32 @@ func boolTri(b bool) tri {
 		return triTrue
 	}
 	return triFalse
+}
+
+// phaseFlags returns the local flags of f (searched in f and its literals) that are assigned from
+// `<state>.InitializeParams != nil` and `<state>.InitializedParams != nil`.
+func phaseFlags(f *Func, initF, initdF *types.Var) (wasInit, wasInitd types.Object) {
+	fs := append([]*Func{f}, f.AllLits()...)
+	for _, g := range fs {
+		for _, w := range Writes(g.Body, false) {
+			if w.RHS == nil {
+				continue
+			}
+			if x, twn, ok := NilTest(w.RHS); ok && !twn {
+				if g.IsField(x, initF) {
+					wasInit = g.ObjOf(w.LHS)
+				}
+				if g.IsField(x, initdF) {
+					wasInitd = g.ObjOf(w.LHS)
+				}
+			}
+		}
+	}
+	return
+}
+
+// phaseVar is the local of f assigned from `<state>.<fld> != nil`.
+func phaseVar(f *Func, fld *types.Var) types.Object {
+	a, _ := phaseFlags(f, fld, nil)
+	return a
 }
